@@ -4193,10 +4193,16 @@ func (c *Checker) checkMacroBoundaryNode(node *ast.MacroBoundaryNode) ast.Expres
 		return node
 	}
 
+	// the expansion of a macro called within an unhygienic node
+	// is hygienic on its own
+	prevUnhygienic := c.isUnhygienic()
+	c.setUnhygienic(false)
+
 	c.pushMacroBoundaryLocalEnv()
 	resultType, _ := c.checkStatements(node.Body, false)
 	c.popLocalEnv()
 
+	c.setUnhygienic(prevUnhygienic)
 	node.SetType(resultType)
 	return node
 }
